@@ -519,7 +519,22 @@ func TestVerif_C05_NamespaceRestore(t *testing.T) {
 		}
 		prefix := x.Prefix + c05LeaseMarker
 		v.Probe.FailNth(func(ev kit.Event) bool { return ev.Op == "get" && strings.HasPrefix(ev.Key, prefix) }, k)
-		uerr := e.unsealNS(v, x)
+		// The unseal runs on its own goroutine: ExpirationManager.restore has been seen (rarely) never to return
+		// after a failed lease read - its distributor goroutine stays blocked sending to the unbuffered broker
+		// channel once all workers left on the quit signal, and restore waits for it. 90s without an answer on an
+		// in-memory store is that state; the core cannot be used (nor shut down) afterwards.
+		done := make(chan error, 1)
+		go func() { done <- e.unsealNS(v, x) }()
+		var uerr error
+		select {
+		case uerr = <-done:
+		case <-time.After(90 * time.Second):
+			v.Probe.ClearFaults()
+			inRestore := v.Core.expiration != nil && v.Core.expiration.inRestoreMode()
+			r.Violate("C05-lease-restore-hangs-after-read-fault", caseID, fmt.Sprintf("[%s] unseal of namespace %s with read #%d under %s failing once has not returned after 90s (manager still in restore mode: %v): the leases of the namespace are never loaded, the request never answers", caseID, x.Path, k, c05KeyClass(prefix), inRestore), steps)
+			v.closed = true // a shutdown would wait for the stuck request
+			return
+		}
 		fired := v.Probe.ClearFaults()
 		steps = append(steps, fmt.Sprintf("sealed; read #%d under %s fails once; unseal -> %v (fault fired: %v)", k, c05KeyClass(prefix), uerr, fired > 0))
 		switch {
